@@ -138,6 +138,7 @@ def sql_rules(ctx, crate, self_ty, clock, tag, rule='C13.R1'):
                            '`%s = %s`: the column is set to what this call bound: %s (an expression over the stored row — MAX(deadline, ?), '
                            'COALESCE(state, ?) — makes the outcome depend on the previous write: a shorter TTL, or a new state, is silently not stored)'
                            % (col.strip(), rhs.strip()[:40], plain))
+    room = []
     for m in LIVE_METHODS:
         if m not in per:
             continue
@@ -146,6 +147,9 @@ def sql_rules(ctx, crate, self_ty, clock, tag, rule='C13.R1'):
                 continue
             q = norm_sql(s)
             ops = deadline_predicates(q, clock)
+            if m == 'change_id' and re.match(r'^\s*DELETE\b', q, re.I):
+                room.append((q, ops, b, bb, t))
+                continue
             ok = has_id_filter(q) and len(ops) == 1 and ops[0] in ('>', '>=') and ' OR ' not in q.upper()
             live_ops |= set(ops)
             # zero rows affected must MEAN "absent or expired": the row is selected by its id and its liveness and by nothing else
@@ -165,6 +169,18 @@ def sql_rules(ctx, crate, self_ty, clock, tag, rule='C13.R1'):
     ctx.ob(rule, '%s|liveness-agreement' % tag, len(live_ops) == 1, '',
            'all liveness-filtered statements use the same comparison: %s' % sorted(live_ops), nontrivial=True)
     live = sorted(live_ops)[0] if len(live_ops) == 1 else None
+    if live and 'change_id' in per:
+        # an expired record that was not swept yet does not own its id (the in-memory store tests freshness of the new id): before the
+        # rename, change_id removes the row under the NEW id iff it is not live — the exact complement of the liveness predicate
+        upd = [(b, bb) for s_, b, bb, t in per['change_id'][1] if s_ and re.match(r'^\s*UPDATE\b', norm_sql(s_), re.I)]
+        good = [(q, ops, b, bb, t) for q, ops, b, bb, t in room if has_id_filter(q) and ops == [COMPLEMENT[live]] and ' OR ' not in q.upper()]
+        bad = [(q, ops, b, bb, t) for q, ops, b, bb, t in room if (q, ops, b, bb, t) not in good]
+        for q, ops, b, bb, t in bad:
+            ctx.ob(rule, '%s|change_id|room-made-for-expired-only' % tag, False, b.loc(bb, t),
+                   '`%s` removes rows with `deadline %s clock`; only a record that is NOT live (`%s`) may be removed to make room' % (q[:80], ops, COMPLEMENT[live]))
+        ctx.ob(rule, '%s|change_id|expired-record-does-not-own-its-id' % tag, bool(good), (good[0][2].loc(good[0][3], good[0][4]) if good else (upd[0][0].loc(upd[0][1]) if upd else '')),
+               'change_id removes a not-live row under the new id (`DELETE .. WHERE id = ? AND deadline %s clock`) before renaming: %s (without it the primary key of a dead, '
+               'unswept row makes the rename fail with DuplicateId although the id is free in the map-with-expiry model)' % (COMPLEMENT[live], bool(good)))
     if live and 'create' in per:
         for s, b, bb, t in per['create'][1]:
             if s is None:
